@@ -341,6 +341,17 @@ class NativeSpec:
                 return not any(v is t for t in self.memo_originals())
             if nm == "bit":
                 return (int(self.ev(n.args[0], env)) >> self.ev(n.args[1], env)) & 1
+            if nm == "valid_mask":
+                try:
+                    ipaddress.IPv4Network(f"0.0.0.0/{self.ev(n.args[0], env)}")
+                    return True
+                except ValueError:
+                    return False
+            if nm == "plen":
+                return ipaddress.IPv4Network(f"0.0.0.0/{self.ev(n.args[0], env)}").prefixlen
+            if nm == "in_net":
+                x, a_, m_ = [self.ev(q, env) for q in n.args]
+                return ipaddress.IPv4Address(x) in ipaddress.IPv4Network(f"{a_}/{m_}", strict=False)
             if nm in REG.specs and nm not in env:
                 sp = REG.specs[nm]
                 args = [self.ev(a, env) for a in n.args]
